@@ -84,10 +84,15 @@ def make_source(fields, nested):
     return src
 
 
-def build(style, mod, fields, nested, eoe=False):
+def build(style, mod, fields, nested, eoe=False, variant=0):
+    """variant bit 1: the parts are used on their own before they are put together (the inner parser reads an empty
+    environment); bit 2: a first declaration of the group under a key that clashes with an existing option is refused, then
+    the group is declared under its own key"""
     p = ArgumentParser(exit_on_error=eoe, prog="app", env_prefix="APP", default_env=False)
     p.add_argument("--cfg", action=ActionConfigFile)
     p.add_argument("--top", type=int, default=0)
+    if variant & 2:
+        p.add_argument(f"--clash.{fields[0]['name']}", type=int, default=0)
 
     def add_fields(q, prefix):
         for f in [f for f in fields if f["default"] is None]:
@@ -113,8 +118,15 @@ def build(style, mod, fields, nested, eoe=False):
     elif style == "class":
         p.add_class_arguments(mod.GroupCls, "g")
     else:
-        inner = ArgumentParser(exit_on_error=eoe)
+        inner = ArgumentParser(exit_on_error=eoe, env_prefix="APP", default_env=False)
         add_fields(inner, "")
+        if variant & 1:
+            call(inner.parse_env, {})
+            call(inner.format_help)
+        if variant & 2:
+            refused = call(p.add_argument, "--clash", action=ActionParser(parser=inner))
+            if refused.accepted:
+                raise RuntimeError("clashing ActionParser attachment was accepted")
         p.add_argument("--g", action=ActionParser(parser=inner))
     return p
 
@@ -227,8 +239,10 @@ def case(ctx, i, rng):
     mod, path = o.value
     try:
         parsers = {}
+        variant = rng.choice([0, 0, 1, 2, 3])
+        ctx.count(f"st.declaration_variant.{variant}")
         for st in STYLES:
-            ob = call(build, st, mod, fields, nested)
+            ob = call(build, st, mod, fields, nested, False, variant)
             if not ob.accepted:
                 ctx.violation("styles", f"declaration-failed/{st}/{ob.exc_type}", dict(source=src[len(HEADER):], outcome=ob.brief(), tb=ob.tb))
                 return
